@@ -8,11 +8,11 @@ CHECKS = {
    text="Every OPEN body of a finite, explicitly enumerated space (boundary product of all fixed fields x optional-parameter/capability layouts incl. length-octet mutations and truncations x configurations x both directions) is sent to the real, rewritten corebgp FSM over the virtual network and the observed reaction (KEEPALIVE/OnOpenMessage/Established or the single NOTIFICATION+EOF) is compared with an independent RFC-derived acceptability predicate with set-valued admissible reactions. Exhaustive inside the stated alphabets; says nothing about values outside them.",
    note="trusted: vinstr rewriting (validated by running the repository's tests on the rewritten package), vrt/vnet semantics, refmodel.JudgeOpen; default schedule only"),
  "C08": dict(level="exploration", design="4/C08",
-   technique="bounded-exhaustive enumeration of faulty headers / segmentations / states through the virtual wire into the real FSM vs RFC 4271 6.1 reaction table",
+   technique="bounded-exhaustive enumeration of faulty headers / segmentations / states through the virtual wire into the real FSM vs RFC 4271 6.1 reaction table; every case (quick: every 10th) is also replayed against the unrewritten package on the Go runtime over loopback TCP and the transcripts compared (conformance of the virtual runtime)",
    text="Every single-octet marker corruption, every out-of-range length of a boundary set (all 65536 values are partitioned into <19, in range, >4096 with the boundaries and a stride sweep), every unknown type octet, at each of OpenSent/OpenConfirm/Established and both directions, preceded by well-formed messages that must take effect and followed by a well-formed UPDATE that must not, under several TCP segmentations (incl. 1-byte writes); plus every in-range UPDATE length in Established delivered byte-exact and every plugin-returned NOTIFICATION data length 0..4075 reaching the wire verbatim. One real FSM run per case under the deterministic runtime.",
    note="trusted: vinstr/vrt/vnet, wire.ParseStrict; default schedule only; data of (1,1)/(1,2) not judged"),
  "C09": dict(level="exploration", design="4/C09",
-   technique="exhaustive enumeration of the (state, message, direction) table and received NOTIFICATION/FIN/RST faults through the virtual wire into the real FSM",
+   technique="exhaustive enumeration of the (state, message, direction) table and received NOTIFICATION/FIN/RST faults through the virtual wire into the real FSM; every case (quick: every 10th) is also replayed against the unrewritten package on the Go runtime over loopback TCP and the transcripts compared (conformance of the virtual runtime)",
    text="All 3 states x {OPEN, UPDATE, KEEPALIVE} x 2 directions, received NOTIFICATIONs (codes 1-7 x subcodes x data lengths), FIN and RST also in mid-message: each cell is one real FSM run judged against the RFC 4271 8.2.2 / RFC 6608 table (legal progress, FSM error with state subcode and type octet, silent close), OnClose exactly once for Established cells. The table is finite and enumerated completely.",
    note="trusted: vinstr/vrt/vnet; default schedule only"),
  "C14": dict(level="exploration", design="4/C14",
@@ -52,7 +52,7 @@ CHECKS = {
    text="WriteUpdate from inside OnEstablished, from inside the handler and from 1-3 free goroutines, timed to coincide with the keepalive timer and with FIN / received NOTIFICATION / handler NOTIFICATION / Close, followed by reconnection and reuse of the old writers; all schedules within the delay bound on the real code; every byte corebgp wrote is parsed strictly per connection and matched as a multiset and per-goroutine order against the calls' return values.",
    note="trusted: vinstr/vrt/vnet; Write atomicity assumption A3"),
  "C06": dict(level="exploration", design="4/C06",
-   technique="bounded-exhaustive enumeration of (local hold, remote hold, traffic pattern, write pattern, timer semantics) in virtual time on the real FSM, plus delay-bounded schedule exploration around expiry",
+   technique="bounded-exhaustive enumeration of (local hold, remote hold, traffic pattern, write pattern, timer semantics) in virtual time on the real FSM, plus delay-bounded schedule exploration around expiry; thorough tier: 48 cases are also run in real time on the Go runtime over loopback TCP and the timelines compared with the virtual ones (conformance of the virtual clock)",
    text="The 8x8 hold-time grid x 7 remote traffic patterns (incl. KEEPALIVE 1 ns before and exactly at expiry) x 3 local write patterns x both Go timer-channel semantics, each run for 3 hold times of virtual time (10x65535 s for hold 0) with time-stamped wire observations: negotiated value, no early expiry, expiry with (4,0)+EOF after silence, keepalive/UPDATE cadence <= hold/3 + 1 s, hold 0 never expires and sends no periodic KEEPALIVEs.",
    note="trusted: vinstr/vrt virtual clock; zero-time computation A4"),
  "C16": dict(level="exploration", design="4/C16",
